@@ -13,7 +13,7 @@ from scipy.linalg import solve
 from andes.io.txt import dump_data
 from andes.plot import set_latex, set_style
 from andes.routines.base import BaseRoutine, check_conn_before_init
-from andes.shared import div, matrix, plt, sparse, spdiag, spmatrix
+from andes.shared import div, matrix, plt, sparse, spdiag
 from andes.utils.misc import elapsed
 from andes.variables.report import report_info
 
@@ -123,36 +123,27 @@ class EIG(BaseRoutine):
         Returns `fx`, `fy`, `gx`, `gy`, `Tf`.
         """
         dae = self.system.dae
-        rows = np.arange(dae.n, dtype=int)
-        cols = np.arange(dae.n, dtype=int)
-        vals = np.ones(dae.n, dtype=float)
 
-        swaps = []
-        bidx = self.nz_counts
-        for ii in range(dae.n - self.nz_counts):
-            if ii in self.zstate_idx:
-                while (bidx in self.zstate_idx):
-                    bidx += 1
-                cols[ii] = bidx
-                rows[bidx] = ii
-                swaps.append((ii, bidx))
+        # order of states: non-zero time constants first, zero time constants last
+        zidx = np.array(self.zstate_idx, dtype=int)
+        nzidx = np.array([ii for ii in range(dae.n) if ii not in set(zidx.tolist())], dtype=int)
+        order = np.concatenate([nzidx, zidx]).astype(int)
 
-        # swap the variable names
-        for fr, bk in swaps:
-            bk_name = self.x_name[bk]
-            self.x_name[fr] = bk_name
-        self.x_name = self.x_name[:self.nz_counts]
+        # keep the names of the remaining states
+        self.x_name = self.x_name[nzidx]
 
-        # compute the permutation matrix for `As` containing non-states
-        perm = spmatrix(matrix(vals), matrix(rows), matrix(cols))
-        As_perm = perm * sparse(self.As) * perm
+        # permute `As` symmetrically
+        As_dense = np.array(matrix(self.As))
+        As_perm = sparse(matrix(As_dense[np.ix_(order, order)]))
         self.As_perm = As_perm
 
         nfx = As_perm[:self.nz_counts, :self.nz_counts]
         nfy = As_perm[:self.nz_counts, self.nz_counts:]
         ngx = As_perm[self.nz_counts:, :self.nz_counts]
         ngy = As_perm[self.nz_counts:, self.nz_counts:]
-        nTf = np.delete(self.system.dae.Tf, self.zstate_idx)
+
+        # rows of `As` have been divided by the time constants already
+        nTf = np.ones(self.nz_counts)
 
         return nfx, nfy, ngx, ngy, nTf
 
